@@ -212,7 +212,8 @@ def run_analysis(case, workers, timeout, chooser, threshold, max_steps=200000, d
         import io
         import osaca.osaca as o
         p = o.create_parser()
-        argv = ["--arch", case.arch] + (["-f"] if case.flag_deps else []) + (["--fixed"] if case.fixed else []) + [case.path]
+        argv = ["--arch", case.arch] + (["-f"] if case.flag_deps else []) + (["--fixed"] if case.fixed else []) + \
+            (["--lines", case.lines] if case.lines else []) + [case.path]
         args = p.parse_args(argv)
         o.check_arguments(args, p)
         args.lcd_timeout = timeout  # argparse's type=int would reject the non-integer timeouts the API accepts
